@@ -1,0 +1,6 @@
+//go:build !verif
+
+package proxy
+
+// verifYield marks a scheduling point for the verification harness; it is empty in normal builds.
+func verifYield(string) {}
